@@ -445,7 +445,7 @@ def body_tc(case, ctx):
     if data.shape != (h, w, 4):
         return r.fail("true_color.shape", "shape %s, expected %s" % (data.shape, (h, w, 4)))
     if tuple(out.dims) != ("y", "x", "band"):
-        r.fail("true_color.dims", "dims %s" % (out.dims,))
+        r.label("observed:true_color_dims=%s" % (tuple(out.dims),))   # dimension names are not part of the statement
     alpha = data[:, :, 3].astype("int64")
     bad = alpha != exp
     if bad.any():
